@@ -255,10 +255,7 @@ func (p *Path) ProvTerm() string {
 		if sl.Core {
 			kind = "Prov.KCore"
 		}
-		hs := vgen.ListOf(sl.Hops, func(h PHop) string {
-			f := uint64(h.Hop.ExpTime)<<40 | uint64(h.Hop.ConsIngress)<<24 | uint64(h.Hop.ConsEgress)<<8
-			return vgen.App("Prov.phc", vgen.N(uint64(h.IA)), vgen.N(f), vgen.N(mac48(h.Hop.Mac[:])), vgen.N(uint64(h.Beta)))
-		})
+		hs := vgen.ListOf(sl.Hops, func(h PHop) string { return ProvHopTerm(h.IA, h.Hop, h.Beta) })
 		sls = append(sls, vgen.App("Prov.mkSl", kind, vgen.B(sl.ConsDir), vgen.B(sl.Peer), vgen.N(uint64(sl.TS)), hs))
 	}
 	return vgen.App("Prov.of_slices", vgen.List(sls))
@@ -268,7 +265,7 @@ func bytesN(b []byte) string { return vgen.Bytes(b) }
 
 // ParamsTerm prints the Prov.pparams term for the packet described by rec.
 func ParamsTerm(rec *rtgen.Rec, port uint16, portOK bool) string {
-	return vgen.App("Prov.mkPP", vgen.N(rec.SrcIA), vgen.N(rec.DstIA), vgen.N(uint64(rec.DstType)),
+	return vgen.App("Prov.mkPP", IATerm(addr.IA(rec.SrcIA)), IATerm(addr.IA(rec.DstIA)), vgen.N(uint64(rec.DstType)),
 		vgen.N(uint64(rec.SrcType)), bytesN(rec.DstRaw), bytesN(rec.SrcRaw), vgen.N(uint64(rec.PayLen)),
 		vgen.Opt(vgen.N(uint64(port)), portOK))
 }
@@ -276,7 +273,7 @@ func ParamsTerm(rec *rtgen.Rec, port uint16, portOK bool) string {
 // MetaTerm prints the interface list of the path metadata.
 func (p *Path) MetaTerm() string {
 	return vgen.ListOf(p.Comb.Metadata.Interfaces, func(x snet.PathInterface) string {
-		return vgen.Pair(vgen.N(uint64(x.IA)), vgen.N(uint64(x.ID)))
+		return vgen.Pair(IATerm(x.IA), vgen.N(uint64(x.ID)))
 	})
 }
 
